@@ -651,7 +651,7 @@ impl ArrayLike for PickObjectKeyValues {
 		Ok(Some(
 			KeyValue::into_untyped(KeyValue {
 				key: key.clone(),
-				value: Thunk::evaluated(self.obj.get_or_bail(key.clone())?),
+				value: self.obj.get_lazy_or_bail(key.clone()),
 			})
 			.expect("convertible"),
 		))
